@@ -313,6 +313,8 @@ func runC03(c *Ctx) {
 	c.Rule("R03c", "inspecting twice gives the same output as far as map order is concerned: no order-sensitive map iteration in the SQLite inspector, the spec marshaller and the inspect formatter (C20's lint scoped to them)", 1)
 
 	checkHCLKeys(c, "R03a", []string{pSpecutil, pSqlspec, pSqlite, pHCL}, "sqlite")
+	c.Rule("R03d", "the SQL export prints every index key part with its direction: the planners' key-part writers consult IndexPart.Desc on every path (same rule as C01/R01e)", 2)
+	checkIndexPartDescRule(c, "R03d")
 
 	// R03b
 	if fi := c.Func("R03b", pCmdlog, "", "fmtPlan"); fi != nil {
